@@ -3,6 +3,7 @@ package main
 // Models of the SDK store, codec and keeper interfaces (assumed contracts).
 
 import (
+	"go/token"
 	"fmt"
 	"go/types"
 	"strings"
@@ -243,7 +244,7 @@ func init() {
 	}
 
 	// ---- staking keeper --------------------------------------------------------------------------------
-	sk := "iface:" + mhubTypes + "StakingKeeper."
+	for _, sk := range []string{"iface:" + mhubTypes + "StakingKeeper.", "iface:" + strings.Replace(mhubTypes, "/x/mhub2/types", "/x/oracle/types", 1) + "StakingKeeper."} {
 	regI(sk+"GetLastTotalPower", "LastTotalPower >= 0 (ghost constant within a block)", func(x *Exec, st *State, ci *callInfo, recv Val, a []Val) Val {
 		x.e.declareFun("uf_totalpower", "() Int")
 		t := T{S: "uf_totalpower", So: SInt}
@@ -303,6 +304,7 @@ func init() {
 		x.panicIf(st, o.Data["isnil"].(T), "nil-interface-call", ci.pos)
 		return o.Data["op"]
 	})
+	}
 	reg("(github.com/cosmos/cosmos-sdk/x/staking/types.Validator).GetOperator", "the operator address (validators are modelled by their operator address)", func(x *Exec, st *State, ci *callInfo, a []Val) Val {
 		return a[0]
 	})
@@ -318,6 +320,14 @@ func init() {
 		x.e.declareFun("uf_hasprice", "(String) Bool")
 		x.panicIf(st, Not(app(SBool, "uf_hasprice", tt(a[1]))), "MustGetTokenPrice-missing-price", ci.pos)
 		return app(SInt, "uf_price", tt(a[1]))
+	})
+	regI("iface:"+strings.Replace(mhubTypes, "/x/mhub2/types", "/x/oracle/types", 1)+"Mhub2Keeper.GetTokenInfos", "the token list of the mhub2 module (arbitrary, non-nil)", func(x *Exec, st *State, ci *callInfo, recv Val, a []Val) Val {
+		rt := ci.sig.Results().At(0).Type()
+		r := x.havocValLike(st, &PtrV{}, "tokenInfos", rt)
+		if p, ok := r.(*PtrV); ok {
+			p.Nil = TFalse
+		}
+		return r
 	})
 	ak := "iface:" + mhubTypes + "AccountKeeper."
 	regI(ak+"GetSequence", "(accseq(addr), err) err iff account unknown", func(x *Exec, st *State, ci *callInfo, recv Val, a []Val) Val {
@@ -438,6 +448,10 @@ func (x *Exec) marshalVal(st *State, v Val) T {
 	}
 	mar, _ := x.e.marshalFn(pt.Elem())
 	p := iv.V.(*PtrV)
+	x.panicIf(st, p.Nil, "MustMarshal-of-nil", token.NoPos)
+	if _, live := st.Heap[p.Obj]; !live {
+		x.fail("MustMarshal of a pointer without an object (nil=%s, %s)", p.Nil.S, typeString(pt))
+	}
 	term := x.e.reify(st, x.e.load(st, p), pt.Elem())
 	return app(SString, mar, term)
 }
